@@ -136,9 +136,9 @@ package spine
 //@   let L0 = c.bindingEntries
 //@   define kept(e) = !onEntity(e.ClientFeature, remoteEntity)
 //@   filter F loop 0 src L0 keep kept
-//@   ensures[C10] nil-noop: remoteEntity == nil ==> c.bindingEntries == L0 && evn == old(evn)
-//@   ensures[C10] view: remoteEntity != nil ==> len(c.bindingEntries) == Fcnt(len(L0)) && forall j int :: 0 <= j && j < len(L0) && kept(L0[j]) ==> c.bindingEntries[Fcnt(j)] == old(L0[j])
-//@   ensures[C10] events: remoteEntity != nil ==> evn == old(evn) + (len(L0) - Fcnt(len(L0)))
+//@   ensures[C10,C06] nil-noop: remoteEntity == nil ==> c.bindingEntries == L0 && evn == old(evn)
+//@   ensures[C10,C06] view: remoteEntity != nil ==> len(c.bindingEntries) == Fcnt(len(L0)) && forall j int :: 0 <= j && j < len(L0) && kept(L0[j]) ==> c.bindingEntries[Fcnt(j)] == old(L0[j])
+//@   ensures[C10,C06] events: remoteEntity != nil ==> evn == old(evn) + (len(L0) - Fcnt(len(L0)))
 //@   modifies c.bindingEntries, @PUBLISH, held
 //@   loop 0 invariant acc: newBindingEntries == nil || freshPre(newBindingEntries)
 //@   loop 0 invariant frame: unchangedPre(*api.BindingEntry) && unchangedPre(api.BindingEntry) && unchangedPre(model.FeatureAddressType) && unchangedPre(model.EntityAddressType) && unchangedPre(api.EventPayload)
@@ -211,9 +211,9 @@ package spine
 //@   let L0 = c.subscriptionEntries
 //@   define kept(e) = !onEntityAddr(e.ClientFeature, remoteEntity)
 //@   filter F loop 0 src L0 keep kept
-//@   ensures[C10] nil-noop: remoteEntity == nil ==> c.subscriptionEntries == L0 && evn == old(evn)
-//@   ensures[C10] view: remoteEntity != nil ==> len(c.subscriptionEntries) == Fcnt(len(L0)) && forall j int :: 0 <= j && j < len(L0) && kept(L0[j]) ==> c.subscriptionEntries[Fcnt(j)] == old(L0[j])
-//@   ensures[C10] events: remoteEntity != nil ==> evn == old(evn) + (len(L0) - Fcnt(len(L0)))
+//@   ensures[C10,C06] nil-noop: remoteEntity == nil ==> c.subscriptionEntries == L0 && evn == old(evn)
+//@   ensures[C10,C06] view: remoteEntity != nil ==> len(c.subscriptionEntries) == Fcnt(len(L0)) && forall j int :: 0 <= j && j < len(L0) && kept(L0[j]) ==> c.subscriptionEntries[Fcnt(j)] == old(L0[j])
+//@   ensures[C10,C06] events: remoteEntity != nil ==> evn == old(evn) + (len(L0) - Fcnt(len(L0)))
 //@   modifies c.subscriptionEntries, @PUBLISH, held
 //@   loop 0 invariant acc: newSubscriptionEntries == nil || freshPre(newSubscriptionEntries)
 //@   loop 0 invariant frame: unchangedPre(*api.SubscriptionEntry) && unchangedPre(api.SubscriptionEntry) && unchangedPre(model.FeatureAddressType) && unchangedPre(model.EntityAddressType) && unchangedPre(api.EventPayload)
@@ -685,10 +685,29 @@ package spine
 //@   ensures[C01] no-response: noResp
 //@   modifies @PUBLISH, world, held
 
-//@ func (*NodeManagement).processNotifyDetailedDiscoveryData trusted safety-root
+// the diff computed for a full notification (three loops; C06 decides the partial path only): opaque here
+//@ func (*NodeManagement).provideDetailedDiscoveryDiffForFullNotify trusted
+//@   ensures result != nil
+//@   modifies world, held, cells(model.NodeManagementDetailedDiscoveryDataType), cells(model.NetworkManagementEntityDescriptionDataType), cells(model.NodeManagementDetailedDiscoveryEntityInformationType), cells(model.NodeManagementDetailedDiscoveryFeatureInformationType), cells(model.NetworkManagementStateChangeType), cells(model.EntityTypeType)
+
+// partial notification (C06): every entry marked removed asks the announcing device to remove exactly the entity of
+// that entry - one request per removed entry, in order, and no other removal
+//@ func (*NodeManagement).processNotifyDetailedDiscoveryData safety-root
 //@   assumes r != nil && r.entity != nil && message != nil && message.FeatureRemote != nil && data != nil
+//@   requires r != nil && message != nil && message.FeatureRemote != nil && data != nil
+//@   let EI = data.EntityInformation
+//@   let RD = message.FeatureRemote.Device()
+//@   define isRemoved(x) = x.Description != nil && x.Description.LastStateChange != nil && *x.Description.LastStateChange == model.NetworkManagementStateChangeTypeRemoved
+//@   filter R entry srcold EI keep isRemoved
 //@   ensures[C01] no-response: noResp
-//@   modifies @PUBLISH, world, held
+//@   ensures[C06] one-removal-per-removed-entry: message.FilterPartial != nil && result == nil ==> ren == old(ren) + Rcnt(len(EI))
+//@   ensures[C06] removes-its-own-entity: message.FilterPartial != nil && result == nil ==> forall j int :: 0 <= j && j < len(EI) && isRemoved(old(EI[j])) ==> redev[old(ren) + Rcnt(j)] == RD && readdr[old(ren) + Rcnt(j)] == old(EI[j].Description.EntityAddress.Entity)
+//@   modifies @PUBLISH, world, held, ren, redev, readdr, cells(model.NodeManagementDetailedDiscoveryDataType), cells(model.NetworkManagementEntityDescriptionDataType), cells(model.NodeManagementDetailedDiscoveryEntityInformationType), cells(model.NodeManagementDetailedDiscoveryFeatureInformationType), cells(model.NetworkManagementStateChangeType), cells(model.EntityTypeType)
+//@   loop 0 invariant partial: message.FilterPartial != nil ==> $s == EI
+//@   loop 0 invariant count: message.FilterPartial != nil ==> ren == old(ren) + Rcnt($k)
+//@   loop 0 invariant each: message.FilterPartial != nil ==> forall j int :: 0 <= j && j < $k && isRemoved(old(EI[j])) ==> redev[old(ren) + Rcnt(j)] == RD && readdr[old(ren) + Rcnt(j)] == old(EI[j].Description.EntityAddress.Entity)
+//@   loop 0 invariant input-kept: message.FilterPartial != nil ==> forall j int :: 0 <= j && j < len(EI) ==> EI[j] == old(EI[j])
+//@   loop 1 invariant removals-unchanged: ren == pre(ren) && redev == pre(redev) && readdr == pre(readdr)
 
 //@ func (*NodeManagement).handleMsgDetailedDiscoveryData
 //@   requires NMREQ && message.DeviceRemote != nil && message.DeviceRemote.Sender() == nmS
@@ -1147,3 +1166,62 @@ package spine
 //@ field[C17] FeatureLocal.subscriptions guarded_by mux
 //@ field[C17] HeartbeatManager.localFeature guarded_by mux
 //@ field[C17] HeartbeatManager.localEntity guarded_by mux
+
+// ---------------------------------------------------------------------------------------
+// remote device tree (C06): the leaf operations the discovery handlers are built from
+
+//@ define rentAt(e, id) = deepEqual(id, e.Address().Entity)
+
+// the entity with a given address: the first one whose address equals it (content equality), nil iff none
+//@ func (*DeviceRemote).Entity
+//@   requires d != nil
+//@   let L0 = d.entities
+//@   defines[] iface-view: result == asIface(d, api.DeviceRemoteInterface).Entity(id)
+//@   ensures[C06] first-match: result != nil ==> exists i int :: 0 <= i && i < len(L0) && result == L0[i] && rentAt(L0[i], id) && forall j int :: 0 <= j && j < i ==> !rentAt(L0[j], id)
+//@   ensures[C06] none: result == nil ==> forall i int :: 0 <= i && i < len(L0) ==> !rentAt(L0[i], id)
+//@   ensures[C06] tree-untouched: d.entities == L0
+//@   ensures[C06] atomic: acquisitions(d.entitiesMutex) == 1 && locksUnchanged()
+//@   modifies held
+//@   loop 0 invariant none-yet: forall j int :: 0 <= j && j < $k ==> !rentAt($s[j], id)
+//@   loop 0 invariant locked: held(d.entitiesMutex) && acquisitions(d.entitiesMutex) == 1 && $s == L0 && d.entities == L0
+
+//@ func (*DeviceRemote).AddEntity
+//@   requires d != nil
+//@   let L0 = d.entities
+//@   ensures[C06] appended: len(d.entities) == len(L0) + 1 && (forall j int :: 0 <= j && j < len(L0) ==> d.entities[j] == old(L0[j])) && d.entities[len(L0)] == entity
+//@   ensures[C06] atomic: acquisitions(d.entitiesMutex) == 1 && locksUnchanged()
+//@   modifies d.entities, d.entities[len(d.entities)], held
+
+// removing an entity by address: exactly the entity Entity(addr) finds is removed (every other entity stays, in order);
+// nil and no change iff the address is unknown
+//@ func (*DeviceRemote).RemoveEntityByAddress
+//@   requires d != nil
+//@   let L0 = d.entities
+//@   let E = asIface(d, api.DeviceRemoteInterface).Entity(addr)
+//@   define kept(e) = e != E
+//@   filter F loop 0 src L0 keep kept
+//@   ensures[C06] unknown-noop: E == nil ==> result == nil && d.entities == L0
+//@   ensures[C06] removed-exactly: E != nil ==> result == E && len(d.entities) == Fcnt(len(L0)) && forall j int :: 0 <= j && j < len(L0) && kept(L0[j]) ==> d.entities[Fcnt(j)] == old(L0[j])
+//@   modifies d.entities, held
+//@   loop 0 invariant acc: newEntities == nil || freshPre(newEntities)
+//@   loop 0 invariant len: len(newEntities) == Fcnt($k)
+//@   loop 0 invariant elems: forall j int :: 0 <= j && j < $k && kept($s[j]) ==> newEntities[Fcnt(j)] == $s[j]
+//@   loop 0 invariant locked: $s == L0 && entityForRemoval == E && E != nil
+
+// resolution of remote feature addresses
+//@ func (*DeviceRemote).FeatureByAddress
+//@   requires d != nil
+//@   let L0 = d.entities
+//@   ensures[C06] nil-address: address == nil ==> result == nil
+//@   ensures[C06] unknown-entity: address != nil && (forall i int :: 0 <= i && i < len(L0) ==> !rentAt(L0[i], address.Entity)) ==> result == nil
+//@   ensures[C06] resolves: address != nil ==> forall i int :: 0 <= i && i < len(L0) && rentAt(L0[i], address.Entity) && (forall j int :: 0 <= j && j < i ==> !rentAt(L0[j], address.Entity)) ==> result == old(L0[i].FeatureOfAddress(address.Feature))
+//@   modifies held
+
+// device description: every announced member replaces the stored one, the others stay
+//@ func (*DeviceRemote).UpdateDevice
+//@   requires d != nil && d.Device != nil
+//@   define DA = description != nil && description.DeviceAddress != nil && description.DeviceAddress.Device != nil
+//@   ensures[C06] address: (old(DA) ==> d.Device.address == old(description.DeviceAddress.Device)) && (!old(DA) ==> d.Device.address == old(d.Device.address))
+//@   ensures[C06] type: (description != nil && description.DeviceType != nil ==> d.Device.dType == old(description.DeviceType)) && (!(description != nil && description.DeviceType != nil) ==> d.Device.dType == old(d.Device.dType))
+//@   ensures[C06] feature-set: (description != nil && description.NetworkFeatureSet != nil ==> d.Device.featureSet == old(description.NetworkFeatureSet)) && (!(description != nil && description.NetworkFeatureSet != nil) ==> d.Device.featureSet == old(d.Device.featureSet))
+//@   modifies d.Device.address, d.Device.dType, d.Device.featureSet
